@@ -102,6 +102,7 @@ def gen_engine(
     free_weights=False,
     share_defuzzifier=False,
     routes=False,
+    reversed_bounds=False,
 ):
     nin, nout, nrb = rnd.randint(1, max_inputs), rnd.randint(1, 2), rnd.randint(1, 2)
     off = (lambda p: rnd.random() < p) if flags else (lambda p: False)
@@ -110,7 +111,7 @@ def gen_engine(
         lo, hi = gen_range(rnd)
         v = dict(name=f"in{i}", description=rnd.choice(["", f"input {i}"]) if descriptions else "", enabled=not off(0.1), minimum=lo, maximum=hi, lock_range=locks and rnd.random() < 0.3, terms=[])
         for j in range(rnd.randint(1, 4)):
-            v["terms"].append(G.shape_term(rnd, f"a{i}{j}", lo, hi, d=d))
+            v["terms"].append(G.shape_term(rnd, f"a{i}{j}", lo, hi, d=d, reversed_bounds=reversed_bounds))
         spec["inputs"].append(v)
     for i in range(nout):
         lo, hi = gen_range(rnd)
@@ -125,7 +126,7 @@ def gen_engine(
             v["aggregation"] = rnd.choice(SNORMS)
             v["defuzzifier"] = dict(cls=rnd.choice(INTEGRAL), resolution=rnd.choice(resolutions))
             for j in range(nt):
-                v["terms"].append(G.shape_term(rnd, f"b{i}{j}", lo, hi, d=d))
+                v["terms"].append(G.shape_term(rnd, f"b{i}{j}", lo, hi, d=d, reversed_bounds=reversed_bounds))
         else:
             fixed = {"ts": "TakagiSugeno", "tsukamoto": "Tsukamoto", "inverse": "TakagiSugeno"}[kind]
             v["defuzzifier"] = dict(cls=rnd.choice(["WeightedAverage", "WeightedSum"]), type=rnd.choice(["Automatic", "Automatic", fixed]))
@@ -260,7 +261,7 @@ def _restore_flags(spec, e):
 
 
 def _term(fl, t, e, route):
-    if route == "factories" and t["cls"] not in ("Function", "Linear", "Discrete"):
+    if route == "factories" and t["cls"] not in ("Function", "Linear"):
         term = fl.settings.factory_manager.term.construct(t["cls"], name=t["name"])
         params = list(t["params"]) + ([t["height"]] if (t["cls"] != "Constant" and t.get("height", 1.0) != 1.0) else [])
         term.configure(" ".join(repr(float(p)) for p in params))
